@@ -2,6 +2,7 @@
 From Coq Require Import List ZArith Bool.
 From Pico Require Import Base.Res Base.Mach Wire.Wire Schema.Types Schema.Scalar Ref.Ref
   Schema.ScalarProofs Enc.Enc Enc.EncProofs Dec.Dec Dec.ReaderProofs Dec.SafetyProofs Dec.LoopInst Dec.TokenBridge Dec.StreamLoop Dec.ReaderBridge Schema.TDec Schema.Interp Schema.EncSpec Schema.Calls gen.ConvGen gen.TypesTable.
+From Pico Require Import Dec.Dec Schema.ErrName.
 Import ListNotations.
 Open Scope Z_scope.
 
@@ -73,6 +74,11 @@ Theorem C13_packed_is_reference_unpack : forall k, is_scalar_wire k = true -> fo
   | None => snd (dec_packed fuel k b acc) = false
   end.
 Proof. exact dec_packed_unpack. Qed.
+(* a Repeated* reader only appends: on ANY input (valid or not, packed or not, however many records, error half-way or
+   not) the list it leaves is the list it found followed by new elements - nothing decoded earlier is lost or rewritten *)
+Theorem C13_repeated_reader_appends : forall k f fuel st vs, exists xs, snd (dec_repeated fuel k f st vs) = vs ++ xs.
+Proof. intros k f fuel st vs. exact (repeated_reader_appends k f fuel st vs). Qed.
+
 (* Message / PresentMessage / RepeatedMessage / UnrecognizedFields and arbitrary generated programs of calls: their
    contracts are the lemmas dec_message_step, repmsg_iter, unrec_loop of Schema/TDec.v, composed into T_dec (C02). *)
 
@@ -117,4 +123,5 @@ Print Assumptions C13_reader_any_input.
 Print Assumptions C13_repeated_reader_iteration.
 Print Assumptions C13_packed_is_reference_unpack.
 Print Assumptions C13_encoder_programs.
+Print Assumptions C13_repeated_reader_appends.
 Print Assumptions C13_absent_message_no_trace.
